@@ -42,6 +42,18 @@ func (bs *Bindings) Bind(ctx *Context, pat interface{}) interface{} {
 	case map[string]interface{}:
 		bound := make(map[string]interface{})
 		for k, x := range v {
+			// A variable can be a property, too ({"?p":"?v"}).  If
+			// it is bound (to a string, what else could be a
+			// property), it is replaced like any other variable:
+			// left in the pattern it would be bound anew by the
+			// match, to every property there is.
+			if IsVariable(k) {
+				if binding, found := (*bs)[k]; found {
+					if s, is := binding.(string); is {
+						k = s
+					}
+				}
+			}
 			bound[k] = bs.Bind(ctx, x)
 		}
 		return bound
